@@ -177,6 +177,7 @@ inductive Ev where
   | write (name : String)    -- `handle.write`
   | remove (name : String)   -- `os.remove`
   | mkdir                    -- `os.mkdir(output_dir)`
+  | mkdirSub (name : String) -- `os.mkdir` of a directory inside the output directory
   | prepared                 -- `prepare_output_directory` returned
   | annotated                -- `annotate_records` called
   | outputsWritten           -- `write_outputs` called
@@ -501,5 +502,65 @@ def RunIn.jsonName (r : RunIn) : String :=
 def RunIn.toPipe (r : RunIn) : PipeIn := ⟨(effective r.call).1, r.results, r.jsonName⟩
 
 def runTail (r : RunIn) : PrepOut := runPipeline r.toPipe
+
+
+/-! ### `run_antismash`: logging is set up before anything else -/
+
+/-- where `config.logfile` lies with respect to the output directory -/
+inductive LogPlace where
+  | nowhere                 -- no log file, or one outside the output directory
+  | entry (m : String)      -- directly inside it, under the name `m`
+  | below (s : String)      -- further down, inside its subdirectory `s`
+deriving Repr, Inhabited, DecidableEq
+
+/-- `some rest` when `l = pre ++ rest` -/
+def stripPrefix : List Path → List Path → Option (List Path)
+  | [], l => some l
+  | _ :: _, [] => Option.none
+  | a :: as, b :: bs => if a == b then stripPrefix as bs else Option.none
+
+/-- the (lexical) identity of a path, as `abspath` computes it: kept leading slashes and components -/
+def pathId (cwd q : Path) : Nat × List Path :=
+  (PosixPath.leadSlashes (PosixPath.absArg cwd q),
+   PosixPath.normComps true (PosixPath.splitSlash (PosixPath.absArg cwd q)))
+
+def logPlace (p : PrepIn) : LogPlace :=
+  if p.logfile == "" then .nowhere
+  else
+    let a := pathId p.cwd.toList p.name.toList
+    let l := pathId p.cwd.toList p.logfile.toList
+    if a.1 != l.1 then .nowhere
+    else
+      match stripPrefix a.2 l.2 with
+      | some [m] => .entry (String.ofList m)
+      | some (s :: _ :: _) => .below (String.ofList s)
+      | _ => .nowhere
+
+/-- what the log file holds once the run has logged something (the text itself is not modelled) -/
+def logText : Tok := .raw "<log>"
+
+/-- `logs.changed_logging(logfile=…)`: `os.makedirs(dirname(logfile))` if missing, then
+    `logging.FileHandler(logfile)` (append mode: created if missing); every run logs at least its
+    version line.  Only effects inside the output directory are modelled. -/
+def setupLogging (place : LogPlace) (t : Target) : Target × List Ev :=
+  match place, t with
+  | .entry m, .absent => (.dir [⟨m, false, [logText]⟩], [.mkdir])
+  | .entry m, .dir es =>
+    if es.any (fun e => e.name == m) then
+      (.dir (es.map fun e => if e.name == m then { e with content := e.content ++ [logText] } else e), [])
+    else (.dir (es ++ [⟨m, false, [logText]⟩]), [])
+  | .below s, .absent => (.dir [⟨s, true, []⟩], [.mkdir, .mkdirSub s])
+  | .below s, .dir es =>
+    if es.any (fun e => e.name == s) then (.dir es, []) else (.dir (es ++ [⟨s, true, []⟩]), [.mkdirSub s])
+  | _, t => (t, [])
+
+/-- `run_antismash`: `with changed_logging(...)`: `_run_antismash`; an `AntismashInputError` is logged
+    and re-raised, anything else passes through -/
+def runAntismash (r : RunIn) : PrepOut :=
+  let p := (effective r.call).1
+  let s := setupLogging (logPlace p) p.target
+  let r' : RunIn := { r with call := { r.call with target := s.1 } }
+  let out := runTail r'
+  ⟨s.2 ++ out.trace ++ (if out.err == some inputError then [.logErr] else []), out.err, out.target⟩
 
 end ASV.WriteSafety
